@@ -1,7 +1,7 @@
 """C09 - BLS outputs are the byte strings mandated by the IETF ciphersuites."""
 from hypothesis import strategies as st
 
-from vf.harness import HarnessError, Task, drive, hx, unhx
+from vf.harness import HarnessError, Task, drive, hx, run_cases_optimized, unhx
 from vf.model import bls12381 as B
 from vf.model import blssig, vectors
 from vf.props import _bls_common as bc
@@ -22,7 +22,7 @@ ASSUMPTIONS = ["the independent model vf/model/{blssig,h2c,bls12381}.py and its 
                "hashlib.sha256 is correct"]
 ENGINE = "hypothesis"
 TECHNIQUE = ("differential property-based testing (Hypothesis) against an independent implementation of the IETF draft anchored by published vectors; cross-suite call sequences")
-_REQ = ["sign:derived_tag", "cross_suite_sequence", "sign:msg_contains_own_pk", "sign:basic", "sign:aug", "sign:pop", "pop_prove", "aggregate:n>=2", "aggregate:n>=7", "aggregate:n_with_three_one_bits", "anchor:eth_sig", "anchor:eth_agg",
+_REQ = ["python_-O:cases", "python_-bb:cases", "sign:derived_tag", "cross_suite_sequence", "sign:msg_contains_own_pk", "sign:basic", "sign:aug", "sign:pop", "pop_prove", "aggregate:n>=2", "aggregate:n>=7", "aggregate:n_with_three_one_bits", "anchor:eth_sig", "anchor:eth_agg",
         "anchor:eth_pk", "sign:sk>=200b", "sign:msg=empty", "sign:msg=56-64", "aggregate:non_subgroup", "aggregate:prefix_sums_to_identity", "aggregate:result_y_im=0"]
 REQUIRED_LABELS = {"quick": _REQ, "thorough": _REQ}
 
@@ -279,6 +279,18 @@ def t_pop(ctx, shard, nshards, n):
           ex[shard::nshards], shrink=False)
 
 
+def t_flags(ctx):
+    """Sign / PopProve / Aggregate values in interpreters started with -O (asserts stripped) and with -bb (comparing
+    bytes with str raises): the mandated byte strings do not depend on how the interpreter was started."""
+    jobs = [{"sub": "sign", "case": {"suite": su, "sk": 1000 + 7 * i, "msg": hx(b"interpreter flags %d" % i)}}
+            for i, su in enumerate(sc.SUITES)]
+    jobs += [{"sub": "sign", "case": {"suite": "basic", "sk": R - 1, "msg": ""}},
+             {"sub": "pop_prove", "case": {"sk": 4242}},
+             {"sub": "aggregate", "case": {"suite": "pop", "sigs": [hx(blssig.sign("pop", 5 + j, b"m")) for j in range(3)]}}]
+    for flag in ("-O", "-bb"):
+        run_cases_optimized(ctx, "C09", jobs, flag=flag)
+
+
 def t_cross(ctx, shard, n):
     strat = st.fixed_dictionaries({"sk": sc.s_sk(), "msg": s_msg(80).map(hx),
                                    "order": st.permutations([0, 1, 2, 3])})
@@ -313,6 +325,7 @@ def tasks(tier):
     ns = 10
     for s in range(ns):
         out.append(Task(f"sign-{s}", "t_sign", shard=s, nshards=ns, n=90 if q else 1500))
+    out.append(Task("flags", "t_flags"))
     for s in range(3):
         out.append(Task(f"cross-{s}", "t_cross", shard=s, n=8 if q else 250))
         out.append(Task(f"pop-{s}", "t_pop", shard=s, nshards=3, n=60 if q else 1200))
